@@ -1,0 +1,27 @@
+//go:build verif
+
+// Contracts for govc (contract-based deductive verification, see /verif/DESIGN.md).
+// Comment-only file: it adds no code and is compiled only with -tags verif.
+
+package numbercache
+
+// The per-node view of the series cache prefixes every key with the node name:
+// a (day, fingerprint) pair announced on one data node says nothing about the
+// others.
+//@ func (*Cache[T]).DB [C04]
+//@   flag checks=-index
+//@   ensures keyed-by-node: typeis(result, "recvtype") && str(unbox(result, "recvtype").db) == db
+
+// Assumed of every serializer handed to NewCache (the one in writer/plugin renders
+// the eight bytes of the fingerprint): it writes nothing the cache can see.
+//@ fieldfunc Cache.serializer(t)
+//@   modifies nothing
+
+// The key looked up and the key stored are the same bytes: the node prefix
+// followed by the serialised value.
+//@ func (*Cache[T]).CheckAndSet [C04]
+//@   flag checks=-index
+//@   requires c.mtx != nil && c.sets != nil
+//@   at Cache).Has node-prefix-len: len(arg0) >= old(len(c.db))
+//@   at Cache).Has node-prefix: forall i int :: 0 <= i && i < old(len(c.db)) ==> arg0[i] == old(c.db[i])
+//@   at Cache).Set stores-the-key-looked-up: aliases(arg0, k) && len(arg0) == len(k)
